@@ -392,20 +392,21 @@ EndsAtExecutedState ==
   /\ \A b \in IDs : cstate[b] # <<>> => cstate[b] = Path(b)
   /\ phase = "done" /\ Backlog = 0 => lastProc = lastAcc /\ lastAcc \in cver /\ lastAcc \in wa
 
-RECURSIVE AncestryValid(_)
-(* b and its ancestors down to the accepted chain are valid blocks *)
-AncestryValid(b) == ~Inv(b) /\ Par(b) \in IDs /\ (est[Par(b)] = "acc" \/ (est[Par(b)] # "rej" /\ AncestryValid(Par(b))))
+(* b, processing when sync finished, is invalid or descends from an invalid block that was processing then: *)
+(* it cannot pass re-verification                                                                           *)
+InvalidAtFinish(b) == \E a \in procAtFinish : Desc(a, b) /\ Inv(a)
 
 ReverifiesAllProcessing ==
   phase = "done" =>
     \A b \in vblocks \cap procAtFinish :
        /\ b \in wv \/ b \in unresolved
-       /\ (pendRej = {} /\ AncestryValid(b)) => b \in wv
+       /\ b \in wv => b \in cver /\ ~InvalidAtFinish(b)
+       /\ (pendRej = {} /\ ~InvalidAtFinish(b)) => b \in wv
 
 UnhealthyUntilInvalidRejected ==
   /\ ~ready => Health # "ok"
   /\ phase = "done" =>
-       /\ (\E b \in procAtFinish : est[b] = "proc" /\ Par(b) \in IDs /\ ~AncestryValid(b)) => Health # "ok"
+       /\ (\E b \in procAtFinish : est[b] = "proc" /\ InvalidAtFinish(b)) => Health # "ok"
        /\ (\A b \in procAtFinish : est[b] # "proc") => Health = "ok"
 FinishNeverFails == phase # "failed"
 
